@@ -40,6 +40,8 @@ def main(argv=None):
     ap.add_argument('--jobs', type=int, default=int(os.environ.get('VERIF_JOBS', '0')) or (os.cpu_count() or 4))
     ap.add_argument('--only', help='substring filter on job names (debugging; evidence is marked partial)')
     ap.add_argument('--no-evidence', action='store_true')
+    ap.add_argument('--max-wall', type=float, default=float(os.environ.get('VERIF_MAX_WALL', '0') or 0),
+                    help='overall wall-clock budget in seconds (default: 900 quick, 1500 thorough); jobs that cannot finish are reported INCOMPLETE')
     a = ap.parse_args(argv)
     prop = a.prop.upper()
     tier = a.tier if a.tier in ('quick', 'thorough') else 'quick'
@@ -63,8 +65,10 @@ def main(argv=None):
     specs = mod.jobs(tier, seed)
     if a.only:
         specs = [s for s in specs if a.only in s['name']]
+    max_wall = a.max_wall or (900 if tier == 'quick' else 1500)
     for s in specs:
         s.setdefault('prop', prop); s.setdefault('seed', seed)
+        s['deadline'] = t0 + max_wall
         # second solver on a seeded sample of the final queries (thorough: 1 in 200, quick: 1 in 2000)
         s.setdefault('cross_rate', 0.005 if tier == 'thorough' else 0.0005)
     specs.sort(key=lambda s: -s.get('cost', s.get('budget_s', 60)))
